@@ -29,6 +29,10 @@ impl<'a> Paseto<'a, V1, Local> {
         footer: (impl Into<Option<Footer<'a>>> + Copy),
     ) -> Result<String, PasetoError> {
         let decoded_payload = Self::parse_raw_token(token, footer, &V1::default(), &Local::default())?;
+        //the decoded payload must at least hold the nonce and the tag
+        if decoded_payload.len() < 80 {
+            return Err(PasetoError::IncorrectSize);
+        }
         let nonce = Key::from(&decoded_payload[..32]);
         let nonce = PasetoNonce::<V1, Local>::from(&nonce);
 
